@@ -297,6 +297,13 @@ pub enum EntryCommand {
 pub struct StateLog { x: u8 }
 impl StateLog {
     pub uninterp spec fn log(&self) -> Seq<EntryCommand>;
+    // LINKED (relational reading, not verbatim): units/journal/lemmas.rs, harness [C05.link.alloc_runtime.apply] proves both clauses from the real
+    // FileState::apply with `log()` read as "a ghost sequence the journal file DENOTES" (valid journal whose entries carry, in order, the
+    // journal forms `cmd_bytes` of the logged commands): Ok => the new file denotes log.push(..); Err => it denotes log or log.push(..)
+    // OR - a case this stub does not list - the write was torn and the file is no journal any more (the loader refuses it at the next
+    // start). The real function's preconditions are NOT carried here: the journal invariant `jwf` (broken by a failed apply: F16),
+    // `command.payload_fits()` (payload below 4 GiB) and unit journal's scope `encryptor is None`. The VALUE-level equation on `log()` as a
+    // function needs `cmd_bytes` injective = the round trip of unit journal_cmd ([C13.journal.cmd.rt]): still stated, not linked.
     #[verifier::external_body]
     pub fn apply(&mut self, user_id: u32, command: EntryCommand) -> (r: Result<(), IggyError>)
         ensures
